@@ -405,6 +405,9 @@ def check_vm_step(ls, direction, start, violation, where, known=((), ())):
                 return False
             got = None if reg.result is Operand.NULL else reg.result
             want = nearest(ref, probe)
+            if want is None and reg.result is not Operand.NULL:
+                # the VM's loops test for Operand.NULL, nothing else ends them
+                got = ('not the end marker', reg.result)
             if got != want:
                 violation('vm-stepping',
                           '{}: VM {} step from {!r} over {} {} gave {!r}, '
@@ -420,6 +423,8 @@ def check_vm_step(ls, direction, start, violation, where, known=((), ())):
             vd.discm(member_of)
         got = None if reg.result is Operand.NULL else reg.result
         want = (ref[0] if direction == 'next' else ref[-1]) if ref else None
+        if want is None and reg.result is not Operand.NULL:
+            got = ('not the end marker', reg.result)
         if got != want:
             violation('vm-stepping',
                       '{}: VM iteration start over {} gave {!r}, expected '
